@@ -444,12 +444,22 @@ func (fr *Frame) loopWrites(li *loopInfo) (keys map[string]bool, all bool) {
 				}
 			}
 			if callee == nil {
+				var sp *FuncSpec
 				if cc.IsInvoke() {
-					if sp := fr.e.L.ifaceSpec(cc); sp != nil {
-						if sp.Pure || (!sp.ModAll && len(sp.Modifies) == 0) {
-							return
+					sp = fr.e.L.ifaceSpec(cc)
+				} else {
+					sp = fr.e.L.funcTypeSpec(cc.Value.Type())
+				}
+				if sp != nil && !sp.ModAll {
+					for _, m := range sp.Modifies {
+						for _, k := range fr.e.keysOfModClause(nil, m) {
+							if k == "*" {
+								all = true
+							}
+							keys[k] = true
 						}
 					}
+					return
 				}
 				all = true
 				return
